@@ -1,7 +1,585 @@
-//! C25 — not implemented yet.
-use vcore::Ctx;
+//! C25 — filelists are complete, dependency-ordered and collision-free.
+//!
+//! Generated projects (`p2_gen` on top of `vproj`): files in several
+//! directories and several `sources` dirs (also the default project-root
+//! source and the deprecated `source` field), equal file names in different
+//! directories, 0–2 path dependency projects (sibling / nested, alias keys,
+//! one depending on the other), `examples/`, `#[test]` modules, the standard
+//! library on/off with a `$std::ram` user, × target {source, directory,
+//! bundle} × sourcemap_target {target, directory, none} × filelist_type
+//! {absolute, relative, flgen}.
+//!
+//! Oracle (the three clauses of the property):
+//!  (i)  in-process `Metadata::paths(&[], true, true)` — the call `veryl build`
+//!       makes — never gives two emitted (non-example) source files the same
+//!       `dst` or the same `map`;
+//!  (ii) after a real `veryl build` (fresh tree) the filelist, parsed by its
+//!       type's syntax, has no duplicate line, names only files that
+//!       `Metadata::paths` assigns to an emitted source and that exist, and
+//!       names every file of the root project and every dependency file the
+//!       root project reaches through generator-known references (the filelist
+//!       is documented to hold "files connected from project": dependency / std
+//!       files nobody uses are emitted but deliberately not listed, so those
+//!       are not demanded).  Bundle targets: the filelist is the one bundle
+//!       file, and the bundle holds every expected definition exactly once;
+//!  (iii) for every generator-known reference A -> B between files (the file
+//!       graph is acyclic by construction) B's line precedes A's (bundle: B's
+//!       definitions precede A's).
 
-pub fn run(_ctx: &Ctx) {
-    println!("INCONCLUSIVE property=C25: check not implemented");
-    std::process::exit(2);
+use crate::p2_gen::{FileId, Owner, P2Opts, P2Project, gen_p2};
+use serde_json::json;
+use std::collections::{BTreeMap, BTreeSet};
+use std::path::{Path, PathBuf};
+use vcore::{CaseCfg, Ctx, Draw, Outcome, hash_str};
+use veryl_metadata::Metadata;
+use veryl_path::PathSet;
+use vproj::cli::Workspace;
+use vproj::genp::GenOpts;
+use vproj::model::{ItemKind, Project};
+use vproj::toml::{Filelist, SrcMap, Target};
+
+fn s(p: &Path) -> String {
+    p.to_string_lossy().into_owned()
+}
+
+/// `module|package|interface <ident>` definitions of a SystemVerilog text: (ident, line).
+fn sv_definitions(text: &str) -> Vec<(String, usize)> {
+    let mut v = vec![];
+    for (n, line) in text.lines().enumerate() {
+        let t = line.trim_start();
+        for kw in ["module ", "package ", "interface "] {
+            if let Some(rest) = t.strip_prefix(kw) {
+                let id: String = rest
+                    .trim_start()
+                    .chars()
+                    .take_while(|c| c.is_ascii_alphanumeric() || *c == '_')
+                    .collect();
+                if !id.is_empty() {
+                    v.push((id, n + 1));
+                }
+            }
+        }
+    }
+    v
+}
+
+fn matches_name(ident: &str, name: &str) -> bool {
+    ident == name || ident.ends_with(&format!("_{name}"))
+}
+
+/// Non-generic item names defined by a model file.
+fn file_item_names(p: &Project, rel: &str) -> Vec<String> {
+    let mut v = vec![];
+    for f in p.files.iter().filter(|f| f.alive && f.rel == rel) {
+        for it in &f.items {
+            let item = &p.items[*it];
+            if !item.alive {
+                continue;
+            }
+            let generic = match &item.kind {
+                ItemKind::Package(k) => k.generic,
+                ItemKind::Module(m) => m.generic,
+                _ => false,
+            };
+            if !generic {
+                v.push(item.name.clone());
+            }
+        }
+    }
+    v
+}
+
+fn names_of(p: &P2Project, f: &FileId) -> Vec<String> {
+    match &f.owner {
+        Owner::Root => {
+            if let Some(e) = p.extra.iter().find(|e| e.rel == f.rel) {
+                e.defines.clone()
+            } else {
+                file_item_names(&p.root, &f.rel)
+            }
+        }
+        Owner::Dep(i) => {
+            let x = &p.deps[*i];
+            if let Some(e) = x.extra.iter().find(|e| e.rel == f.rel) {
+                e.defines.clone()
+            } else {
+                file_item_names(&x.prj, &f.rel)
+            }
+        }
+        Owner::Std => vec![],
+    }
+}
+
+struct Mapped {
+    /// model file -> index into `paths`
+    idx: BTreeMap<FileId, usize>,
+}
+
+fn map_files(p: &P2Project, ws: &Workspace, paths: &[PathSet]) -> Result<Mapped, String> {
+    let mut idx = BTreeMap::new();
+    for (f, _ex) in p.files() {
+        let Some(dp) = p.disk_path(ws, &f) else { continue };
+        let Ok(c) = dp.canonicalize() else {
+            return Err(format!("{} is not on disk", f.show()));
+        };
+        match paths.iter().position(|x| x.src == c) {
+            Some(i) => {
+                idx.insert(f, i);
+            }
+            None => return Err(format!("{} is not collected by Metadata::paths", f.show())),
+        }
+    }
+    Ok(Mapped { idx })
+}
+
+fn collision_signature(p: &P2Project, a: &PathSet, b: &PathSet) -> String {
+    let fname = |x: &PathSet| x.src.file_name().map(|n| n.to_owned());
+    match &p.root.cfg.target {
+        Target::Bundle(_) if fname(a) == fname(b) && a.prj == b.prj => {
+            "paths/bundle-target-keeps-only-the-file-name".into()
+        }
+        Target::Directory(_) if p.sources.dirs().len() > 1 && a.prj == b.prj => {
+            "paths/directory-target-drops-the-sources-dir".into()
+        }
+        _ => "paths/collision-unexplained".into(),
+    }
+}
+
+fn one_case(d: &mut Draw, thorough: bool) -> Outcome {
+    let opts = P2Opts {
+        gopts: GenOpts {
+            min_items: 4,
+            max_items: if thorough { 12 } else { 9 },
+            max_files: if thorough { 8 } else { 6 },
+            ..GenOpts::default()
+        },
+        multi_sources: true,
+        deps: true,
+        std_per_mille: 80,
+        collide_per_mille: 40,
+        ensure_wildcard: false,
+    };
+    let p = gen_p2(d, &opts);
+    let ws = Workspace::new("c25", &p.root.cfg.name);
+    p.write(&ws, false);
+    let summary = p.summary();
+    let root = match ws.root.canonicalize() {
+        Ok(r) => r,
+        Err(_) => return Outcome::skip("scratch directory vanished"),
+    };
+    let mk_input = |extra: serde_json::Value| {
+        json!({
+            "project": summary,
+            "veryl_toml": p.root_toml(),
+            "files": p.disk_files().iter().map(|(r, _)| r.clone()).collect::<Vec<_>>(),
+            "detail": extra,
+            "script": ws.script(),
+        })
+    };
+
+    // ------------------------------------------------ (i) Metadata::paths
+    let mut md = match Metadata::load(root.join("Veryl.toml")) {
+        Ok(m) => m,
+        Err(e) => return Outcome::skip(format!("Veryl.toml not accepted: {}", first_line(&e.to_string()))),
+    };
+    let paths = match md.paths::<PathBuf>(&[], true, true) {
+        Ok(x) => x,
+        Err(e) => return Outcome::skip(format!("Metadata::paths failed: {}", first_line(&e.to_string()))),
+    };
+    let mut classes: BTreeSet<String> = BTreeSet::new();
+    let emitted: Vec<&PathSet> = paths.iter().filter(|x| !x.example).collect();
+    for (i, a) in emitted.iter().enumerate() {
+        for b in emitted.iter().skip(i + 1) {
+            if a.src == b.src {
+                return Outcome::skip("a source file is collected twice (overlapping sources)");
+            }
+            let what = if a.dst == b.dst {
+                Some("output")
+            } else if a.map == b.map {
+                Some("source-map")
+            } else if a.dst == b.map || a.map == b.dst {
+                Some("output/source-map")
+            } else {
+                None
+            };
+            if let Some(what) = what {
+                let sig = collision_signature(&p, a, b);
+                return Outcome::fail(
+                    sig,
+                    format!(
+                        "Metadata::paths assigns the same {what} path to two source files:\n  {} -> {} (map {})\n  {} -> {} (map {})\nproject: {summary}",
+                        s(&a.src),
+                        s(&a.dst),
+                        s(&a.map),
+                        s(&b.src),
+                        s(&b.dst),
+                        s(&b.map)
+                    ),
+                    mk_input(json!({"a": s(&a.src), "b": s(&b.src), "dst_a": s(&a.dst), "dst_b": s(&b.dst)})),
+                );
+            }
+        }
+    }
+    if p.forced_collision.is_some() {
+        classes.insert("forced_collision_shape_but_paths_distinct".into());
+    }
+    for x in paths.iter().filter(|x| x.example) {
+        if emitted.iter().any(|e| e.dst == x.dst) {
+            classes.insert("example_dst_equals_an_emitted_dst(example_never_emitted)".into());
+        }
+    }
+    let mapped = match map_files(&p, &ws, &paths) {
+        Ok(m) => m,
+        Err(e) => return Outcome::skip(format!("model/PathSet mismatch: {e}")),
+    };
+
+    // --------------------------------------------------- real `veryl build`
+    let r = ws.veryl(&["build"]);
+    if r.timed_out {
+        return Outcome::skip("veryl build timed out");
+    }
+    if r.panicked {
+        return Outcome::skip(format!("veryl build panics (C11's domain): {}", r.panic_line()));
+    }
+    if r.code != Some(0) {
+        let why = r
+            .diags
+            .iter()
+            .find(|x| !x.code.is_empty())
+            .map(|x| x.code.clone())
+            .unwrap_or_else(|| format!("exit {:?}: {}", r.code, first_line(&r.tail(2))));
+        if std::env::var_os("VERIF_P2_KEEP").is_some() {
+            let name = ws.scratch.path.file_name().map(|x| s(Path::new(x))).unwrap_or_default();
+            let _ = std::fs::write(
+                format!("{}/reject-{name}.sh", vcore::util::work_root()),
+                format!("{}\n# stderr:\n# {}", ws.script(), r.stderr.replace('\n', "\n# ")),
+            );
+        }
+        return Outcome::skip(format!("generated project not accepted ({why})"));
+    }
+
+    let cfg = &p.root.cfg;
+    let fl_path = root.join(cfg.filelist_name());
+    let Ok(fl_text) = std::fs::read_to_string(&fl_path) else {
+        return Outcome::fail(
+            "filelist/not-written",
+            format!("veryl build succeeded but {} does not exist\nproject: {summary}", s(&fl_path)),
+            mk_input(json!(null)),
+        );
+    };
+    let mut lines: Vec<PathBuf> = vec![];
+    for l in fl_text.lines() {
+        if l.is_empty() {
+            continue;
+        }
+        let parsed = match cfg.filelist {
+            Filelist::Absolute => l.starts_with('/').then(|| PathBuf::from(l)),
+            Filelist::Relative => (!l.starts_with('/') && !l.contains('\'')).then(|| root.join(l)),
+            Filelist::Flgen => l
+                .strip_prefix("source_file '")
+                .and_then(|x| x.strip_suffix('\''))
+                .filter(|x| !x.starts_with('/'))
+                .map(|x| root.join(x)),
+        };
+        match parsed {
+            Some(x) => lines.push(x),
+            None => {
+                return Outcome::fail(
+                    "filelist/syntax",
+                    format!("line {l:?} of {} is not in {:?} syntax\nproject: {summary}", s(&fl_path), cfg.filelist),
+                    mk_input(json!({"filelist": fl_text})),
+                );
+            }
+        }
+    }
+    let fail = |sig: &str, msg: String| {
+        Outcome::fail(
+            sig.to_string(),
+            format!("{msg}\nfilelist {}:\n{fl_text}project: {summary}", s(&fl_path)),
+            mk_input(json!({"filelist": fl_text})),
+        )
+    };
+
+    let edges = p.edges();
+    let files = p.files();
+    let is_example: BTreeMap<FileId, bool> = files.iter().cloned().collect();
+    let reachable = p.reachable_from_root();
+    // line index of a model file
+    let std_dst = |rel: &str| root.join("dependencies/std").join(rel).with_extension("sv");
+    let dst_of = |f: &FileId| -> Option<PathBuf> {
+        match f.owner {
+            Owner::Std => Some(std_dst(&f.rel)),
+            _ => mapped.idx.get(f).map(|i| paths[*i].dst.clone()),
+        }
+    };
+
+    let mut nontrivial_edge = false;
+    if let Target::Bundle(bp) = &cfg.target {
+        // ---- bundle: one line, the bundle holds every definition once
+        let bundle = root.join(bp);
+        if lines.len() != 1 || lines[0] != bundle {
+            return fail(
+                "filelist/bundle-line",
+                format!("bundle target: the filelist must name exactly {}", s(&bundle)),
+            );
+        }
+        let Ok(text) = std::fs::read_to_string(&bundle) else {
+            return fail("filelist/names-file-not-emitted", format!("{} does not exist", s(&bundle)));
+        };
+        let defs = sv_definitions(&text);
+        let mut span: BTreeMap<FileId, (usize, usize)> = BTreeMap::new();
+        for (f, ex) in &files {
+            if *ex {
+                continue;
+            }
+            let must = f.owner == Owner::Root || reachable.contains(f);
+            for name in names_of(&p, f) {
+                let hits: Vec<usize> = defs.iter().filter(|(id, _)| matches_name(id, &name)).map(|x| x.1).collect();
+                if hits.len() > 1 {
+                    return Outcome::fail(
+                        "bundle/definition-duplicated",
+                        format!(
+                            "{name} (from {}) is defined {} times in the bundle {} (lines {hits:?})\nproject: {summary}",
+                            f.show(),
+                            hits.len(),
+                            s(&bundle)
+                        ),
+                        mk_input(json!({"bundle": text})),
+                    );
+                }
+                if hits.is_empty() && must {
+                    return Outcome::fail(
+                        "bundle/definition-missing",
+                        format!("{name} (from {}) is not in the bundle {}\nproject: {summary}", f.show(), s(&bundle)),
+                        mk_input(json!({"bundle": text})),
+                    );
+                }
+                if let Some(h) = hits.first() {
+                    let e = span.entry(f.clone()).or_insert((*h, *h));
+                    e.0 = e.0.min(*h);
+                    e.1 = e.1.max(*h);
+                }
+            }
+        }
+        for (a, b) in &edges {
+            if is_example.get(a).copied().unwrap_or(false) {
+                continue;
+            }
+            if let (Some(sa), Some(sb)) = (span.get(a), span.get(b)) {
+                if let (Some(ia), Some(ib)) = (mapped.idx.get(a), mapped.idx.get(b))
+                    && ib > ia
+                {
+                    nontrivial_edge = true;
+                }
+                if sb.1 >= sa.0 {
+                    return Outcome::fail(
+                        "bundle/order",
+                        format!(
+                            "{} references {}, but its definitions (from line {}) do not come after those of {} (up to line {}) in {}\nproject: {summary}",
+                            a.show(),
+                            b.show(),
+                            sa.0,
+                            b.show(),
+                            sb.1,
+                            s(&bundle)
+                        ),
+                        mk_input(json!({"bundle": text, "a": a.show(), "b": b.show()})),
+                    );
+                }
+            }
+        }
+    } else {
+        // ---- one line per emitted file
+        let mut pos: BTreeMap<PathBuf, usize> = BTreeMap::new();
+        for (i, l) in lines.iter().enumerate() {
+            if pos.insert(l.clone(), i).is_some() {
+                return fail("filelist/duplicate-line", format!("{} is listed twice", s(l)));
+            }
+        }
+        for l in &lines {
+            let known = emitted.iter().any(|x| &x.dst == l);
+            if !known {
+                let ex = paths.iter().any(|x| x.example && &x.dst == l);
+                return fail(
+                    if ex { "filelist/names-an-example" } else { "filelist/names-file-not-emitted" },
+                    format!("{} is not the output path of any emitted source file", s(l)),
+                );
+            }
+            if !l.is_file() {
+                return fail("filelist/names-file-not-emitted", format!("{} does not exist", s(l)));
+            }
+        }
+        for (f, ex) in &files {
+            if *ex {
+                continue;
+            }
+            let Some(dst) = dst_of(f) else { continue };
+            if !dst.is_file() {
+                return fail(
+                    "build/source-not-emitted",
+                    format!("{} was not emitted ({} does not exist)", f.show(), s(&dst)),
+                );
+            }
+            if f.owner == Owner::Root && !pos.contains_key(&dst) {
+                return fail(
+                    "filelist/missing-project-file",
+                    format!("{} ({}) was emitted but is not listed", f.show(), s(&dst)),
+                );
+            }
+            if f.owner != Owner::Root && reachable.contains(f) && !pos.contains_key(&dst) {
+                return fail(
+                    "filelist/missing-dependency-file",
+                    format!("{} ({}) is used by the project, was emitted, but is not listed", f.show(), s(&dst)),
+                );
+            }
+            if f.owner != Owner::Root && !reachable.contains(f) {
+                classes.insert(
+                    if pos.contains_key(&dst) {
+                        "unused_dependency_file_listed"
+                    } else {
+                        "unused_dependency_file_emitted_not_listed"
+                    }
+                    .into(),
+                );
+            }
+        }
+        for (a, b) in &edges {
+            if is_example.get(a).copied().unwrap_or(false) {
+                continue;
+            }
+            let (Some(da), Some(db)) = (dst_of(a), dst_of(b)) else { continue };
+            if b.owner == Owner::Std && !pos.contains_key(&db) {
+                return fail(
+                    "filelist/missing-dependency-file",
+                    format!("{} uses $std {} but {} is not listed", a.show(), b.rel, s(&db)),
+                );
+            }
+            let (Some(pa), Some(pb)) = (pos.get(&da), pos.get(&db)) else { continue };
+            if let (Some(ia), Some(ib)) = (mapped.idx.get(a), mapped.idx.get(b))
+                && ib > ia
+            {
+                nontrivial_edge = true;
+                if a.owner != b.owner {
+                    classes.insert("cross_project_edge_against_processing_order".into());
+                }
+            }
+            if pb >= pa {
+                return fail(
+                    "filelist/order",
+                    format!(
+                        "{} references {} (acyclic), but line {} ({}) does not precede line {} ({})",
+                        a.show(),
+                        b.show(),
+                        pb + 1,
+                        s(&db),
+                        pa + 1,
+                        s(&da)
+                    ),
+                );
+            }
+        }
+    }
+
+    // ------------------------------------------------------------- evidence
+    let dirs: BTreeSet<PathBuf> = emitted
+        .iter()
+        .filter(|x| x.prj == cfg.name)
+        .filter_map(|x| x.src.parent().map(|d| d.to_path_buf()))
+        .collect();
+    let nontrivial = dirs.len() >= 2 && nontrivial_edge;
+    classes.insert(
+        match &cfg.target {
+            Target::Source => "target=source",
+            Target::Directory(_) => "target=directory",
+            Target::Bundle(_) => "target=bundle",
+        }
+        .into(),
+    );
+    classes.insert(
+        match &cfg.sourcemap {
+            SrcMap::Target => "sourcemap=target",
+            SrcMap::Directory(_) => "sourcemap=directory",
+            SrcMap::None => "sourcemap=none",
+        }
+        .into(),
+    );
+    classes.insert(format!("filelist={:?}", cfg.filelist).to_lowercase());
+    classes.insert(p.sources.label().into());
+    classes.insert(format!("deps={}", p.deps.len()));
+    if p.deps.iter().any(|x| x.dir.starts_with("vendor/")) {
+        classes.insert("dep_nested_in_project_dir".into());
+    }
+    if p.deps.iter().any(|x| !x.deps.is_empty()) {
+        classes.insert("dep_depends_on_dep".into());
+    }
+    if p.deps.iter().any(|x| !x.direct) {
+        classes.insert("dep_only_transitive".into());
+    }
+    if p.deps.iter().any(|x| x.key != x.prj.cfg.name) {
+        classes.insert("dep_alias_key".into());
+    }
+    if !cfg.exclude_std {
+        classes.insert("std_included".into());
+    }
+    if p.std_user {
+        classes.insert("std_module_used".into());
+    }
+    if p.root.has_tests() {
+        classes.insert("has_test_module".into());
+    }
+    if paths.iter().any(|x| x.example) {
+        classes.insert("has_examples_dir".into());
+    }
+    let mut names: BTreeMap<String, usize> = BTreeMap::new();
+    for x in emitted.iter().filter(|x| x.prj == cfg.name) {
+        *names.entry(x.src.file_name().map(|n| s(Path::new(n))).unwrap_or_default()).or_default() += 1;
+    }
+    if names.values().any(|n| *n > 1) {
+        classes.insert("same_file_name_in_two_directories".into());
+    }
+    if p.excluded_collisions > 0 {
+        classes.insert("known_collision_excluded_by_renaming".into());
+    }
+    if dirs.len() >= 2 {
+        classes.insert("two_or_more_directories".into());
+    }
+    if nontrivial_edge {
+        classes.insert("edge_against_processing_order".into());
+    }
+    if cfg.omit_project_prefix {
+        classes.insert("omit_project_prefix".into());
+    }
+    classes.insert(format!("root_files={}", emitted.iter().filter(|x| x.prj == cfg.name).count().min(9)));
+    let text = format!("{summary}\n{fl_text}");
+    Outcome::pass(hash_str(&text), nontrivial, classes.into_iter().collect(), text)
+}
+
+fn first_line(x: &str) -> String {
+    x.lines().next().unwrap_or("").chars().take(100).collect()
+}
+
+pub fn run(ctx: &Ctx) {
+    let thorough = !ctx.is_quick();
+    // `Metadata::paths` runs in this process: std expansion and the lock
+    // directories go to a scratch cache, never to the user's
+    let xdg = vcore::util::Scratch::new("c25-xdg");
+    // SAFETY: no other thread exists yet
+    unsafe { std::env::set_var("XDG_CACHE_HOME", &xdg.path) };
+    let mut n = ctx.scale(260, 10_000);
+    if let Some(k) = std::env::var("VERIF_C25_CASES").ok().and_then(|x| x.parse().ok()) {
+        n = k; // development aid
+    }
+    ctx.run("filelist", CaseCfg::cases(n).choices(2500).timeout_s(900).shrink_iters(40), move |d| {
+        one_case(d, thorough)
+    });
+    drop(xdg);
+    ctx.assume("`veryl` is /repo's own main.rs built by harness package vcli; `Metadata::paths(&[], true, true)` is called in-process exactly as cmd_build calls it, on the project written to disk");
+    ctx.assume("clause (i) is asserted for emitted (non-example) files; an examples/ file sharing a dst with an emitted file is only counted (examples are never emitted)");
+    ctx.assume("clause (ii): the filelist is documented to hold the files connected from the project; dependency and std files that nothing in the project reaches are emitted but not listed and are not demanded");
+    ctx.assume("clause (iii) is checked for the generator's reference graph (const/type/struct/enum/function uses, imports incl. wildcard, generic packages and modules, instances, modports, port defaults, test -> dut, root -> dependency, dependency -> dependency, $std::ram); file-level dependencies are acyclic by construction");
+    ctx.assume("the two known colliding shapes (bundle: equal file names; directory target: equal relative paths in two sources dirs) are avoided by renaming (class known_collision_excluded_by_renaming) and forced in ~4 % of the cases");
+    ctx.finish(
+        "exploration",
+        "p2_gen projects (vproj model + several sources dirs + path dependencies + std user + extra dependency-user modules) x target x sourcemap_target x filelist_type; one real `veryl build` per case; non-trivial = the root project's emitted files live in >= 2 directories and a known reference A -> B exists where B is processed after A (contradicts the alphabetical processing order); distinct by project summary + filelist text",
+    );
 }
